@@ -26,7 +26,7 @@ ASSUMPTIONS = [
     "observable state is vlib.snapshot's snapshot plus the bytes B.read() produces",
 ]
 REQUIRED_LABELS = {
-    "quick": ["pair_same_recipe", "pair_other_type", "pair_clone", "pair_load_twice", "project_pair", "inplace_list_mutation", "reverse_direction", "save_load_a", "nested_mutation", "bystander_legacy_sampler", "bystander_fixture"],
+    "quick": ["pair_same_recipe", "pair_other_type", "pair_clone", "pair_load_twice", "project_pair", "inplace_list_mutation", "reverse_direction", "save_load_a", "nested_mutation", "bystander_legacy_sampler", "bystander_fixture", "pair_deepcopy"],
     "thorough": ["pair_same_recipe", "pair_other_type", "pair_clone", "pair_load_twice", "project_pair", "inplace_list_mutation", "reverse_direction", "save_load_a"]
     + ["type_" + t for t in build.attachable_types()],
 }
@@ -44,6 +44,8 @@ def plan(tier):
     # containers with nested objects get their own shards: leaks through shared inner projects / effects
     for t in ("MetaModule", "MetaModule", "Sampler"):
         descs.append({"kind": "nested", "type": t, "examples": per, "max_mut": k})
+    # copies made by Python itself (copy.deepcopy) and by clone(), edited through the type-specific API, for every type that has a payload
+    descs.append({"kind": "copies", "types": ["SpectraVoice", "MultiSynth", "MultiCtl", "WaveShaper", "Fmx", "Generator", "AnalogGenerator", "Sampler", "MetaModule", "VorbisPlayer"], "examples": 6 if tier == "quick" else 60, "max_mut": 4})
     return descs
 
 
@@ -62,7 +64,7 @@ def make_obj(recipe):
 
 
 @st.composite
-def pair_case(draw, max_mut, tname=None, nested=False):
+def pair_case(draw, max_mut, tname=None, nested=False, force_how=None):
     if nested:
         # the module carries an inner project / effect, B comes from the same bytes or a clone, and
         # the mutations go into the nested object
@@ -71,7 +73,9 @@ def pair_case(draw, max_mut, tname=None, nested=False):
         a = {"kind": "project", "spec": draw(build.project_spec(depth=1, max_modules=3, max_patterns=2))}
     else:
         a = {"kind": "synth", "spec": draw(build.module_spec(in_project=False, depth=1, tname=tname))}
-    how = draw(st.sampled_from(["clone", "load_twice", "load_twice", "same_recipe"] if nested else ["same_recipe", "other", "clone", "load_twice"]))
+    how = draw(st.sampled_from(["clone", "load_twice", "load_twice", "same_recipe", "deepcopy"] if nested else ["same_recipe", "other", "clone", "load_twice", "deepcopy"]))
+    if force_how:
+        how = force_how
     b = None
     if how == "other":
         if a["kind"] == "project":
@@ -93,7 +97,7 @@ def pair_case(draw, max_mut, tname=None, nested=False):
             edits.apply_edit(scratch, e)
         muts.append(e)
     rev = []
-    if how == "clone" and draw(st.booleans()):
+    if how in ("clone", "deepcopy") and (force_how or draw(st.booleans())):
         scratch_b = clone_of(make_obj(a))
         for _ in range(draw(st.integers(1, 3))):
             e = draw(edits.draw_edit(scratch_b, focus=True))
@@ -233,6 +237,11 @@ def run_case(ctx, case):
     elif how == "clone":
         B = clone_of(A)
         labels.add("pair_clone")
+    elif how == "deepcopy":
+        import copy
+
+        B = copy.deepcopy(A)  # Python's own way of obtaining an independent copy
+        labels.add("pair_deepcopy")
     else:
         data = A.read()
         constructed = snapshot.snap(A)
@@ -315,6 +324,12 @@ def run_shard(ctx, desc):
 
     if desc["kind"] == "nested":
         run_property(ctx, pair_case(desc["max_mut"], tname=desc["type"], nested=True), body, desc["examples"], tag="nested_" + desc["type"], bucket="pair")
+        return
+    if desc["kind"] == "copies":
+        for t in desc["types"]:
+            for how in ("deepcopy", "clone"):
+                if not run_property(ctx, pair_case(desc["max_mut"], tname=t, force_how=how), body, desc["examples"], tag="copies_%s_%s" % (how, t), bucket="pair"):
+                    return
         return
     for t in desc["sweep"]:
         if not run_property(ctx, pair_case(desc["max_mut"], tname=t), body, 6 if ctx.tier == "quick" else 25, tag="sweep_" + t, bucket="pair"):
